@@ -6,19 +6,29 @@ NOTE = ("next_evfilt/make_evfilt with the Allen relations and echs_event_range()
 ASSUMPTIONS = ["occurrence and exception streams strictly increasing (what evrrul/evrdat streams deliver, see C16/C20)",
                "exceptions carry the event's duration, as make_task() builds them",
                "duration shorter than the gap between consecutive occurrences (as the property states)"]
+FP = {'echs_evstrm_pop.function_pointer_call.1': ['arr_next'], 'echs_evstrm_next.function_pointer_call.1': ['arr_next'],
+      'free_echs_evstrm.function_pointer_call.1': ['arr_free']}
 def ob(name, defs, **kw):
-    o = dict(name=name, src='h_filt.c', defs=defs, units=['src/instant.c'], incl=['src/evfilt.c'], replay_units='all',
-             unwind=8, unwindset={'echs_instant_add.*': 3, 'echs_instant_fixup.*': 3}, solver='cadical', timeout=900, mem_gb=10,
+    o = dict(name=name, src='h_filt.c', defs=defs, units=[], incl=['src/evfilt.c', 'src/instant.c'], replay_units='all',
+             unwind=5, solver='cadical', timeout=600, mem_gb=10, restrict_fp=FP,
              checks=['--bounds-check', '--pointer-check'], excludes=['C02-2'],
-             enc=['next_evfilt', 'make_evfilt', 'echs_range_overlaps_p', 'echs_range_precedes_p', 'echs_event_range', 'echs_instant_add'],
+             enc=['next_evfilt', 'make_evfilt', 'echs_range_overlaps_p', 'echs_range_precedes_p', 'echs_event_range', 'echs_instant_lt_p'],
              sym='number and instants of occurrences and exceptions, duration, date vs date-time, peek/pop schedule',
-             stubs=['array-backed echs_evstrm_class_s (harness/common/arrstrm.h)'])
+             stubs=['array-backed echs_evstrm_class_s (harness/common/arrstrm.h)', 'indirect calls restricted to it',
+                    'echs_instant_add replaced by a 6-line model proved equal to the real function on the harness domain (obligation add_model_equiv)'])
     o.update(kw)
     return o
 OBLIGATIONS = [
-    ob('filt_2x2_ops4', ['NE=2', 'NX=2', 'NOPS=4'], bounds='<= 2 occurrences, <= 2 exceptions, 4 peek/pop calls'),
-    ob('filt_3x3_ops6', ['NE=3', 'NX=3', 'NOPS=6'], bounds='<= 3 occurrences, <= 3 exceptions, 6 peek/pop calls'),
-    ob('filt_4x4_ops8', ['NE=4', 'NX=4', 'NOPS=8'], bounds='<= 4 occurrences, <= 4 exceptions, 8 calls', tiers=('thorough',), timeout=3000, mem_gb=20),
-    ob('kf_overlap_drops_unnamed', ['NE=1', 'NX=1', 'NOPS=2'], expect='kf', kf='C02-2', excludes=[],
+    dict(name='add_model_equiv', src='h_filt.c', defs=['ADD_EQUIV'], units=['src/instant.c'], unwind=8, unwindset={'echs_instant_add.*': 4},
+         solver='kissat', timeout=600, mem_gb=6, enc=['echs_instant_add'], sym='day, hour, duration, date vs date-time',
+         bounds='March 2024 day 1..20, whole hours, durations 0..47 h (0..9 d for dates)'),
+    # cost grows ~2.4x per unwinding of next_evfilt's check loop (CBMC re-merges the bit-field unions of every
+    # instant at each join), so the loop bound is set to what the stream lengths need: NE + NX + 1
+    ob('filt_1x2_ops3', ['NE=1', 'NX=2', 'NOPS=3'], unwindset={'next_evfilt.*': 4}, bounds='1 occurrence, <= 2 exceptions, 3 peek/pop calls'),
+    ob('filt_2x1_ops3', ['NE=2', 'NX=1', 'NOPS=3'], unwindset={'next_evfilt.*': 4}, bounds='<= 2 occurrences, 1 exception, 3 peek/pop calls'),
+    ob('filt_2x2_ops3', ['NE=2', 'NX=2', 'NOPS=3'], unwindset={'next_evfilt.*': 5}, bounds='<= 2 occurrences, <= 2 exceptions, 3 peek/pop calls', timeout=1200, mem_gb=16),
+    ob('filt_3x2_ops4', ['NE=3', 'NX=2', 'NOPS=4'], unwindset={'next_evfilt.*': 6}, bounds='<= 3 occurrences, <= 2 exceptions, 4 calls', tiers=('thorough',), timeout=3400, mem_gb=30),
+    ob('filt_2x3_ops3', ['NE=2', 'NX=3', 'NOPS=3'], unwindset={'next_evfilt.*': 6}, bounds='<= 2 occurrences, <= 3 exceptions, 3 calls', tiers=('thorough',), timeout=3400, mem_gb=30),
+    ob('kf_overlap_drops_unnamed', ['NE=1', 'NX=1', 'NOPS=2'], expect='kf', kf='C02-2', excludes=[], unwindset={'next_evfilt.*': 3},
        bounds='one occurrence, one exception within one duration of it'),
 ]
